@@ -259,7 +259,7 @@ pub struct ChainCtl {
 impl ChainCtl {
 	pub fn new(dir: &str, miner_seed: &[u8]) -> ChainCtl {
 		global::set_local_chain_type(ChainTypes::AutomatedTesting);
-		global::init_global_chain_type(ChainTypes::AutomatedTesting);
+		global::set_global_chain_type(ChainTypes::AutomatedTesting);
 		let genesis = pow::mine_genesis_block().unwrap();
 		let chain = Arc::new(
 			Chain::init(
